@@ -23,8 +23,15 @@ def run_one(sid, checks):
         subprocess.check_call(["git", "-C", "/repo", "worktree", "add", "-q", "--detach", wt, "HEAD"])
         p = subprocess.run(["git", "-C", wt, "apply", os.path.join(d, "patch.diff")], stdout=subprocess.PIPE,
                            stderr=subprocess.STDOUT, text=True)
+        if p.returncode != 0:     # the tree moved on (hook commit): fall back to a 3-way merge
+            p = subprocess.run(["git", "-C", wt, "apply", "-3", os.path.join(d, "patch.diff")], stdout=subprocess.PIPE,
+                               stderr=subprocess.STDOUT, text=True)
         if p.returncode != 0:
             return sid, {"error": "patch does not apply: " + p.stdout[-300:]}
+        b = subprocess.run(["go", "build", "./..."], cwd=wt, env=vlib.GOENV, stdout=subprocess.PIPE,
+                           stderr=subprocess.STDOUT, text=True)
+        if b.returncode != 0:
+            return sid, {"error": "patched tree does not build: " + b.stdout[-300:]}
         for pid in checks:
             env = dict(os.environ, VERIF_REPO=wt, VERIF_SELFTEST="1")
             t = time.time()
@@ -71,6 +78,9 @@ def main(args):
                 futs.append(ex.submit(run_one, sid, checks))
             for f in futs:
                 sid, out = f.result()
+                if "error" in out:
+                    print("%s: %s" % (sid, out["error"]))
+                    continue
                 target = json.load(open(os.path.join(SEEDED, sid, "meta.json"))).get("property", sid[:3])
                 results.setdefault(sid, {}).update(out)
                 red = sorted(p for p, r in out.items() if isinstance(r, dict) and r.get("exit") == 1)
